@@ -10,7 +10,7 @@ CODES = {
     'transpose': 50, 'switch_order': 51, 'switch_order_wr': 52, 'set_order': 53, 'set_order_wr': 54,
     'reshape': 55, 'resize': 56, 'shrink_to_fit': 57, 'shrink_to': 58, 'clear': 59,
     'set': 60, 'set_index_mut': 61, 'swap': 62, 'swap_rows': 63, 'swap_cols': 64, 'overwrite': 65,
-    'apply': 70, 'map': 71, 'map_ref': 72, 'clone': 73, 'neg': 74, 'neg_ref': 75,
+    'apply': 70, 'map': 71, 'map_ref': 72, 'clone': 73, 'neg': 74, 'neg_ref': 75, 'clone_from': 76,
     'ew': 80, 'ew_consume': 81, 'ew_assign': 82, 'ew_named': 83, 'op_ew': 84, 'op_ew_assign': 85,
     'sc': 90, 'sc_consume': 91, 'sc_assign': 92,
     'multiply': 95, 'op_mul': 96, 'mul_like': 97,
@@ -138,6 +138,9 @@ class Shadow:
             src = s[a[1]]; s[a[1]] = None; s[a[0]] = list(src)
         elif name in ('map_ref', 'par_map_ref', 'clone', 'neg_ref'):
             s[a[0]] = list(s[a[1]])
+        elif name == 'clone_from':
+            if s[a[0]] is not None and s[a[1]] is not None and a[0] != a[1]:
+                s[a[0]] = list(s[a[1]])
         elif name == 'neg':
             src = s[a[1]]; s[a[1]] = None; s[a[0]] = list(src)
         elif name in ('ew', 'ew_consume'):
